@@ -134,6 +134,8 @@ func main() {
 		modeC05()
 	case "c04":
 		modeC04()
+	case "c06":
+		modeC06()
 	default:
 		res.InfraError("unknown mode %s", mode)
 	}
@@ -169,18 +171,26 @@ func replayMode() {
 		env, _ = c02Env(p, &fspec)
 		cfg = c02Cfg()
 	}
+	var tamper Tamper
+	if rp.Mode == "c06" {
+		json.Unmarshal([]byte(rp.Extra), &tamper)
+		env = c06Env(p, tamper)
+	}
 	var c05x c05Extra
 	if rp.Mode == "c05" {
 		json.Unmarshal([]byte(rp.Extra), &c05x)
 		env = c05Env(p, c05x.Flusher, c05x.Fault)
 		cfg = c05Cfg()
 	}
+	wd := &wireDump{inner: env.Obs}
+	env.Obs = wd
 	x, err := vrt.Replay(cfg, rp.Choices, func() { runTransfer(p, env) })
 	if err != nil {
 		res.InfraError("%v", err)
 		return
 	}
 	res.Eval()
+	wd.print()
 	fmt.Fprintf(os.Stderr, "replay: outcome=%s detail=%s\n  send: done=%v err=%v\n  recv: done=%v err=%v\n  tree: %s\n  steps=%d points=%d virtual-time=%v\n",
 		x.Outcome, x.Detail, last.SendDone, last.SendErr, last.RecvDone, last.RecvErr, last.TreeDiff, x.Steps(), x.NPoints(), time.Duration(x.Clock()-1_700_000_000*1_000_000_000))
 	switch rp.Mode {
@@ -192,6 +202,8 @@ func replayMode() {
 		checkC02(p, &fspec, x, last)
 	case "c05":
 		checkC05(p, x, last, c05x.Flusher, c05x.Fault)
+	case "c06":
+		checkC06(p, tamper, x, last)
 	}
 }
 
